@@ -59,7 +59,7 @@ def units(tier, seed):
     u = [{'k': 'fp', 'i': i} for i in range(NTREES[tier])]
     for i in range(3 if tier == 'quick' else 40):
         u.append({'k': 'strace', 'i': i})
-    for i in range(16 if tier == 'quick' else 400):
+    for i in range(40 if tier == 'quick' else 1200):
         u.append({'k': 'priv', 'i': i})
     return u
 
@@ -73,6 +73,8 @@ def setup_worker(ctx):
     import gemato.recursiveloader  # noqa
     import encodings.utf_8, encodings.ascii, encodings.latin_1  # noqa
     import gzip, bz2, lzma, traceback, json  # noqa
+    import _strptime, datetime  # noqa  (datetime.strptime imports it lazily)
+    datetime.datetime.strptime('2020-01-01T00:00:00Z', '%Y-%m-%dT%H:%M:%SZ')
 
 
 def build_tree(rng, root):
@@ -198,10 +200,47 @@ PRIV_KINDS = ['listed-file', 'stray-file', 'directory', 'sub-manifest', 'top-man
               'listed-in-sub', 'dir-with-manifest']
 
 
+def run_priv_generated(u, ctx):
+    """mode-000 object at a random position of a *generated* tree."""
+    rng = common.rng_for(ctx.seed, ID, 'privgen', u['i'])
+    op = OPS[u['i'] % 3]
+    with common.Scratch('vf-c06q-', base='/tmp') as d:
+        os.chmod(d, 0o755)
+        root = os.path.join(d, 't')
+        try:
+            tcase, layout, info = scenario.build(
+                rng, root, ['stray'], rng.choice([0, 1]),
+                {'max_dirs': 4, 'max_files': 8, 'specials': False, 'symlinks': False,
+                 'p_ignore': 0, 'hostile': rng.choice([0, 0.4])})
+        except RuntimeError:
+            ctx.discarded('generator')
+            return
+        cands = []
+        for dp, dn, fn in os.walk(root):
+            os.chmod(dp, 0o755)
+            for x in fn:
+                os.chmod(os.path.join(dp, x), 0o644)
+                if not x.startswith('.'):
+                    cands.append(os.path.relpath(os.path.join(dp, x), root))
+            for x in dn:
+                if not x.startswith('.'):
+                    cands.append(os.path.relpath(os.path.join(dp, x), root))
+        cands.sort()
+        target = cands[rng.randrange(len(cands))]
+        is_dir = os.path.isdir(os.path.join(root, target))
+        kind = ('directory' if is_dir else 'manifest' if os.path.basename(
+            target).startswith('Manifest') else 'stray-file' if any(
+            r.get('path') == target for r in tcase['mutations']) else 'listed-file')
+        priv_execute(ctx, root, target, kind, op, {'kind': 'privgen', 'i': u['i'],
+                                                   'gen_seed': ctx.seed})
+
+
 def run_priv(u, ctx):
+    if u['i'] % 2:
+        return run_priv_generated(u, ctx)
     rng = common.rng_for(ctx.seed, ID, 'priv', u['i'])
-    kind = PRIV_KINDS[u['i'] % len(PRIV_KINDS)]
-    op = OPS[(u['i'] // len(PRIV_KINDS)) % 3]
+    kind = PRIV_KINDS[(u['i'] // 2) % len(PRIV_KINDS)]
+    op = OPS[(u['i'] // (2 * len(PRIV_KINDS))) % 3]
     base = '/tmp' if os.access('/tmp', os.W_OK) else common.scratch_base()
     with common.Scratch('vf-c06p-', base=base) as d:
         os.chmod(d, 0o755)
@@ -234,11 +273,16 @@ def run_priv(u, ctx):
             os.chmod(dp, 0o755)
             for x in fn:
                 os.chmod(os.path.join(dp, x), 0o644)
+        priv_execute(ctx, root, target, kind, op, {'kind': 'priv', 'i': u['i'],
+                                                   'gen_seed': ctx.seed})
+
+
+def priv_execute(ctx, root, target, kind, op, case):
+    if True:
         os.chmod(os.path.join(root, target), 0)
         snap0 = gtree.snapshot(root)
-        case = {'kind': 'priv', 'what': kind, 'op': op, 'target': target,
-                'i': u['i'], 'gen_seed': ctx.seed}
-        ctx.case(sig=('priv', kind, op), case=case, klass='priv')
+        case = dict(case, what=kind, op=op, target=target)
+        ctx.case(sig=('priv', kind, op, case['kind']), case=case, klass=case['kind'])
         ctx.count('priv_runs')
         r, w = os.pipe()
         pid = os.fork()
@@ -452,5 +496,7 @@ def replay(case, ctx):
                               case['errno'])
     elif case['kind'] == 'priv':
         run_priv({'i': case['i']}, ctx)
+    elif case['kind'] == 'privgen':
+        run_priv_generated({'i': case['i']}, ctx)
     else:
         run_strace({'i': case['tree']}, ctx)
